@@ -367,8 +367,8 @@ func runC15(ctx *Ctx) error {
 
 	// ---------- (D) the dial deadline
 	behaviours := []string{"silent", "half-prompt", "garbage-forever", "close-at-once", "close-after-prompt", "callsign-prompt-only", "prompt-then-stop-reading"}
-	nd := ctx.N(21, 84)
-	hows := []string{"context", "timeout", "url", "cancel", "url-and-later-context-deadline", "dialer-timeout-and-later-context-deadline"}
+	nd := ctx.N(28, 98)
+	hows := []string{"context", "timeout", "url", "cancel", "url-and-later-context-deadline", "dialer-timeout-and-later-context-deadline", "default-dialer-timeout-through-the-registry"}
 	for i := 0; i < nd; i++ {
 		beh := behaviours[i%len(behaviours)]
 		how := hows[(i+i/len(behaviours))%len(hows)]
@@ -442,6 +442,18 @@ func runC15(ctx *Ctx) error {
 					break
 				}
 				c, err = telnet.DefaultDialer.DialURL(u)
+			case "default-dialer-timeout-through-the-registry":
+				// the application sets the exported default dialer's time-out and dials a telnet URL
+				// through the transport registry
+				oldT := telnet.DefaultDialer.Timeout
+				telnet.DefaultDialer.Timeout = limit
+				u, perr := transport.ParseURL(fmt.Sprintf("telnet://LA5NTA:secret@%s/wl2k", ln.Addr().String()))
+				if perr != nil {
+					err = perr
+				} else {
+					c, err = transport.DialURL(u)
+				}
+				telnet.DefaultDialer.Timeout = oldT
 			case "url-and-later-context-deadline", "dialer-timeout-and-later-context-deadline":
 				// the caller's context has a deadline of its own, far later than the configured
 				// time-out: the earlier of the two limits the dial
